@@ -74,6 +74,9 @@ SCOPE_SELECTS = [
     '(set "a" (push [] .x) (? .c (set "b" 1 (first :a)) (set "b" 1 (push [] (first :a)))))',
     '(map (range 3) (set "a" (+ . ^.x) (? (= . ^.i) (set "b" 1 :a) -1)))',
     '(set "a" .x (? .c (define "m" :a (set "b" 1 (push [] @m :a))) :a))',
+    # one macro, the same small input in every record, something else that differs (the enclosing input, a variable)
+    '(define "m" (push [] . ^.x) (| .i @m))', '(set "v" .x (define "m" (push [] . :v) (| "k" @m)))', '(| .i @pm)', '(set "v" .x (| 1 @pv))',
+    '(map (range 2) (define "m" (push [] . ^^^.x) (| 0 @m)))',
 ]
 
 
@@ -90,6 +93,7 @@ def gen_scopes_unit(rng):
         return out
     sels = rng.sample(SCOPE_SELECTS, rng.choice((1, 1, 2, 3)))
     args = ["--select=%s=s%d" % (e, i) for i, e in enumerate(sels)]
+    args = ["--set", "@pm=(push [] . ^.x)", "--set", "@pv=(push [] . :v)"] + args
     if rng.random() < 0.3:
         args = ["--filter=" + rng.choice(SCOPE_SELECTS[:2]).replace("(push [] :a :b)", "(= :a .x)")] + args
     return {"args": args, "A": recs(rng.choice((2, 4, 8))), "B": recs(rng.choice((2, 4, 8))), "headers": False, "funcs": ["set", "define"], "singles": True}
